@@ -174,6 +174,20 @@ class C16Check(object):
             case["test"] = spaces.random_spec(r, raw2, [tk], p_restrict=0.55)
         # extra spaces whose colouring is checked although they are not assembled
         case["extra_spaces"] = [spaces.random_spec(r, raw1, [r.choice(ALL_KINDS)], p_restrict=0.6) for _ in range(2)]
+        # spaces on ONE grid that agree in kind and support but differ in their dof map (boundary-dof options),
+        # created one after the other: a colouring must belong to the space, not to (grid, kind, support)
+        twins = []
+        for base in (case["trial"], case["test"]) + tuple(case["extra_spaces"]):
+            if base["kind"] not in spaces.EDGE_OPTIONS:
+                continue
+            t = dict(base)
+            t["include_boundary_dofs"] = not bool(base.get("include_boundary_dofs", False))
+            if r.random() < 0.4:
+                t["truncate_at_segment_edge"] = not bool(base.get("truncate_at_segment_edge", True))
+            pair = [t, dict(base)] if r.random() < 0.5 else [dict(base), t]
+            twins.append(pair)
+        case["twins"] = twins[:3]
+        case["bary_direct"] = [k for k in ("DP0", "P1", "RWG", "SNC") if r.random() < 0.35]
         # O2 is cheap: sample the colouring sentence on further (also larger) grids and every space kind
         extra = []
         for _ in range(2 if self.tier == "quick" else 4):
@@ -297,6 +311,12 @@ class C16Check(object):
                     if gx.number_of_elements > 60:
                         out.probe("coloured_space_on_grid_over_60_elements")
                     self._colour(s, out, "xg%d.%d:%s" % (j, i, sp["kind"]), sp)
+        for j, pair in enumerate(case.get("twins", [])):
+            for i, sp in enumerate(pair):
+                s = mk(grid1, sp, "twin%d.%d" % (j, i))
+                if s is not None:
+                    out.probe("twin_spaces_coloured")
+                    self._colour(s, out, "twin%d.%d:%s" % (j, i, sp["kind"]), sp)
         trial = mk(grid1, case["trial"], "trial")
         if trial is None:
             return
@@ -306,9 +326,19 @@ class C16Check(object):
         self._colour(trial, out, "trial:" + case["trial"]["kind"], case["trial"])
         if test is not trial:
             self._colour(test, out, "test:" + case["test"]["kind"], case["test"])
-        if out.violations:
-            # the colouring clause already fails: still try to exhibit it through O1 below
-            pass
+        # genuine spaces created directly on the barycentric refinement, after barycentric representations
+        # of coarse spaces on it have been coloured
+        if case.get("bary_direct"):
+            try:
+                bgrid = grid1.barycentric_refinement
+            except Exception:  # noqa: BLE001
+                bgrid = None
+            if bgrid is not None:
+                for kind in case["bary_direct"]:
+                    s = mk(bgrid, {"kind": kind}, "bary_direct:" + kind)
+                    if s is not None:
+                        out.probe("spaces_on_barycentric_grid_coloured")
+                        check_colouring(s, out, "bary_direct:" + kind)
 
         def assemble():
             if mode in ("dense", "sparse", "singular"):
@@ -423,6 +453,9 @@ class C16Check(object):
             lambda c: c.update(repeat=False),
             lambda c: c.update(extra_spaces=[]),
             lambda c: c.update(extra_grids=[]),
+            lambda c: c.update(bary_direct=[]),
+            lambda c: c.update(twins=[]),
+            lambda c: c.update(twins=c.get("twins", [])[:1]),
             lambda c: c["grid"].update(renumber=False, rotate=False),
             lambda c: c["grid"].update(refinements=0),
             lambda c: c.pop("grid2", None),
